@@ -24,6 +24,10 @@ var corruptionClasses = []string{
 	"fk-dangling-nullable", "fk-dangling-nonnullable", "fkc-dangling",
 	"link-one-sided", "link-one-sided-g", "link-dangling",
 	"dup-unique", "null-nonnullable",
+	// the same families on the other wirings: the child store's own unique index, the nullable unique index, the
+	// self-referencing and the cascade-delete fk index, the second fk constraint
+	"unique-missing-child", "unique-extra-child", "unique-missing-nick",
+	"fk-missing-backref-mentees", "fk-extra-backref-badges", "fk-missing-backref-badges", "fkc-dangling-memo", "fkc-dangling-ticket",
 }
 
 type appliedCorruption struct {
@@ -330,6 +334,86 @@ func (r *Run) applyCorruptions(tx *bbolt.Tx, m *Model, list []Corruption) []appl
 			put(mustBucket(tx, true, rootBucket, StPeople, p, "groups"), typedKey(g), nil)
 			out = append(out, appliedCorruption{c: c, desc: "person " + p + " linked to absent group " + g,
 				expect: [][]string{{"people " + p + " references group " + g + ", which doesn't exist"}}})
+		case "unique-missing-child":
+			var cands []string
+			for _, p := range people {
+				if m.People[p].HasStaff {
+					cands = append(cands, p)
+				}
+			}
+			p, ok := pickFrom(c, cands)
+			if !ok || !take(p) {
+				continue
+			}
+			del(mustBucket(tx, true, rootBucket, boltz.IndexesBucket, StPeople, "badgeNo"), []byte(m.People[p].BadgeNo))
+			out = append(out, appliedCorruption{c: c, desc: "child-store unique index entry (badgeNo) of " + p + " removed",
+				expect: [][]string{{"unique index people.badgeNo missing value " + m.People[p].BadgeNo + " for id " + p}}})
+		case "unique-extra-child":
+			g := ghost()
+			put(mustBucket(tx, true, rootBucket, boltz.IndexesBucket, StPeople, "badgeNo"), []byte("zz-"+g), []byte(g))
+			out = append(out, appliedCorruption{c: c, desc: "child-store unique index entry for absent id " + g,
+				expect: [][]string{{"unique index people.badgeNo references " + g, "doesn't exist"}}})
+		case "unique-missing-nick":
+			var cands []string
+			for _, p := range people {
+				if strOr(m.People[p].Nick) != "" {
+					cands = append(cands, p)
+				}
+			}
+			p, ok := pickFrom(c, cands)
+			if !ok || !take(p) {
+				continue
+			}
+			del(mustBucket(tx, true, rootBucket, boltz.IndexesBucket, StPeople, "nick"), []byte(*m.People[p].Nick))
+			out = append(out, appliedCorruption{c: c, desc: "nullable unique index entry (nick) of " + p + " removed",
+				expect: [][]string{{"unique index people.nick missing value " + *m.People[p].Nick + " for id " + p}}})
+		case "fk-missing-backref-mentees":
+			var cands []string
+			for _, p := range people {
+				if mt := strOr(m.People[p].Mentor); mt != "" && mt != p {
+					cands = append(cands, p)
+				}
+			}
+			p, ok := pickFrom(c, cands)
+			if !ok || !take(p) {
+				continue
+			}
+			mt := *m.People[p].Mentor
+			del(mustBucket(tx, false, rootBucket, StPeople, mt, "mentees"), typedKey(p))
+			out = append(out, appliedCorruption{c: c, desc: "back-reference " + mt + ".mentees->" + p + " removed",
+				expect: [][]string{{"for people " + p + " field mentor references people " + mt + ", but no back-reference exists"}}})
+		case "fk-extra-backref-badges":
+			p, ok := pickFrom(c, people)
+			if !ok {
+				continue
+			}
+			g := ghost()
+			put(mustBucket(tx, true, rootBucket, StPeople, p, "badges"), typedKey(g), nil)
+			out = append(out, appliedCorruption{c: c, desc: "back-reference " + p + ".badges->" + g + " (absent badge)",
+				expect: [][]string{{"for fk badges.owner, people " + p + " references badge " + g + ", which doesn't exist"}}})
+		case "fk-missing-backref-badges":
+			bs := keysOf(m.Badges)
+			b, ok := pickFrom(c, bs)
+			if !ok || !take(b) {
+				continue
+			}
+			owner := m.Badges[b]
+			del(mustBucket(tx, false, rootBucket, StPeople, owner, "badges"), typedKey(b))
+			out = append(out, appliedCorruption{c: c, desc: "back-reference " + owner + ".badges->" + b + " removed",
+				expect: [][]string{{"for badge " + b + " field owner references people " + owner + ", but no back-reference exists"}}})
+		case "fkc-dangling-memo", "fkc-dangling-ticket":
+			store, field, tbl, target := StMemos, "topic", m.Memos, "group"
+			if c.Class == "fkc-dangling-ticket" {
+				store, field, tbl, target = StTickets, "assignee", m.Tickets, "people"
+			}
+			id, ok := pickFrom(c, keysOf(tbl))
+			if !ok || !take(id) {
+				continue
+			}
+			g := ghost()
+			put(mustBucket(tx, false, rootBucket, store, id), []byte(field), typedStr(g))
+			out = append(out, appliedCorruption{c: c, desc: store + " " + id + "." + field + " -> absent " + g,
+				expect: [][]string{{store + "." + field + " has invalid value for " + boltz.GetSingularEntityType(store) + " " + id + ", which references invalid " + target + " " + g}}})
 		case "dup-unique":
 			if len(people) < 2 {
 				continue
